@@ -5,7 +5,9 @@
 (A/B) Trace_ValueLaws: the real Equals/CompareTo matrices of pools of values (families of close neighbours, samples of the
     small-scope enumeration, large random values and mutated copies, nil/empty payloads, each with its decoded copy) judged
     by TLC over all pairs and triples; ladders through the full range of every payload domain embedded as scalars, array
-    elements, map keys and container items (gen extreme); pools whose objects LIVE ON through rounds of public mutators
+    elements, map keys and container items (gen extreme); long sequences around a stride W (members below, at and above one
+    and two strides that differ at two positions of a stride in opposite directions, with their proper prefixes; gen stride);
+    containers whose entries are absent or hold a nothing-like value (gen absent); pools whose objects LIVE ON through rounds of public mutators
     (gen mut: Put, PutAll, Clear, Add, Set, Read into the object, exported fields, ...), every round judged by the same
     laws plus Fresh (a member and the object built afresh from its observed content are interchangeable) and Stable
     (members whose content did not change get the same answers as in the round before)."""
